@@ -125,6 +125,30 @@ func init() {
 			}
 			return e.deepEqual(st, ia.V, ib.V, ia.T, 0)
 		}
+		// maps.Clone: a shallow copy; a nil map stays nil
+		I["maps.Clone"] = func(e *Engine, st *State, th *Thread, fn *ssa.Function, a []Value, in *ssa.Call) Value {
+			m := e.pick(st, a[0]).(MapRef)
+			if m.Obj == 0 {
+				return MapRef{}
+			}
+			src := st.obj(m.Obj)
+			id := e.newObjID(st, th, "maps.Clone")
+			st.setObj(id, &Object{Kind: OMap, T: src.T, Site: "maps.Clone", Ents: append([]MapEnt(nil), src.Ents...), ep: st.ep})
+			return MapRef{id}
+		}
+		// strings.IndexByte and friends end up here
+		I["internal/bytealg.IndexByteString"] = func(e *Engine, st *State, th *Thread, fn *ssa.Function, a []Value, in *ssa.Call) Value {
+			s, c := a[0].(*term.Term), a[1].(*term.Term)
+			if !s.IsConst() || !c.IsConst() {
+				abort("UNMODELLED", "IndexByte on a symbolic string")
+			}
+			for i := 0; i < len(s.S); i++ {
+				if uint64(s.S[i]) == c.U {
+					return term.BVC(64, uint64(i))
+				}
+			}
+			return term.BVC(64, ^uint64(0))
+		}
 		I["reflect.TypeOf"] = func(e *Engine, st *State, th *Thread, fn *ssa.Function, a []Value, in *ssa.Call) Value {
 			iv := e.pick(st, a[0]).(Iface)
 			if iv.T == nil {
